@@ -9,6 +9,7 @@ import (
 	"net/netip"
 	"strings"
 	"testing"
+	"time"
 
 	"github.com/slackhq/nebula/header"
 	"pgregory.net/rapid"
@@ -821,4 +822,76 @@ func TestC39_Probe_requested_leg_disestablished(t *testing.T) {
 	if r.State != Requested {
 		t.Fatalf("C39: a relay leg that was requested and never answered (remote index %d) moved to state %d when the other leg's tunnel went away; a later response on the other leg would establish it without the peer's answer", r.RemoteIndex, r.State)
 	}
+}
+
+// TestC15_RelayedHandshakeAttribution: a handshake that arrives through a relay belongs to the peer
+// whose key authenticates it; the relay's underlay address says nothing about that peer. Hosts that
+// can only reach each other through the relay carry per-peer allow rules (lighthouse.
+// remote_allow_ranges) that deny the RELAY's underlay address for the other hosts' overlay
+// addresses - rules about where those peers may be reached directly. Under a fair network (everything
+// deliverable is delivered, the direct paths stay cut) the relayed tunnel still comes up and the
+// queued packet arrives, exactly as it does without the rules.
+func TestC15_RelayedHandshakeAttribution(t *testing.T) {
+	nsSetT(t)
+	vk.Check(t, 150, func(rt *rapid.T) {
+		withRules := rapid.IntRange(0, 3).Draw(rt, "withRules") != 0
+		var labels []string
+		delivered := false
+		nsBubble(rt, func(rt *rapid.T, s *nsSim) {
+			relayUDP := nsUnderlay(0).Addr()
+			w := nsGenWorld(rt, s, nsWorldOpts{minHosts: 2, maxHosts: 3, relay: 1, partition: 1, staticAll: true, extra: func(sp *nsNodeSpec, cfg nsM) {
+				if sp.role != nsHost || !withRules {
+					return
+				}
+				ranges := nsM{}
+				for k := 1; k < 5; k++ {
+					if nsOverlayAddr(k) != sp.nets[0] {
+						ranges[netip.PrefixFrom(nsOverlayAddr(k).Addr(), 32).String()] = nsM{netip.PrefixFrom(relayUDP, 32).String(): false}
+					}
+				}
+				lh, _ := cfg["lighthouse"].(nsM)
+				if lh == nil {
+					lh = nsM{}
+					cfg["lighthouse"] = lh
+				}
+				lh["remote_allow_ranges"] = ranges
+			}})
+			w.pid = "C15"
+			h := &nsHist{rt: rt, w: w, delivered: map[int]map[int]bool{}, stats: map[string]int{}}
+			w.startAll(rt)
+			hosts := w.honestHosts()
+			if len(hosts) < 2 || w.relayIdx != 0 {
+				rt.Fatalf("harness: unexpected world %s", w.describe())
+			}
+			xi := hosts[rapid.IntRange(0, len(hosts)-1).Draw(rt, "x")]
+			yi := hosts[rapid.IntRange(0, len(hosts)-1).Draw(rt, "y")]
+			if xi == yi {
+				return
+			}
+			yAddr := w.commonAddr(xi, yi)
+			if yAddr.Is6() {
+				return
+			}
+			rec := w.sendTagged(xi, yi, yAddr, 60)
+			h.runFor(8*time.Second, 100*time.Millisecond)
+			got := false
+			for _, p := range s.tunOutSince(w.nodes[yi], 0) {
+				if rec != nil && bytes.Contains(p, []byte(rec.tag)) {
+					got = true
+				}
+			}
+			hx := w.nodes[xi].ctrl.f.hostMap.QueryVpnAddr(yAddr)
+			if hx == nil || !got {
+				rt.Fatalf("hosts %s and %s can only reach each other through the relay; with allow rules that deny the relay's underlay address %v for the peer's overlay address (rules=%v) the relayed tunnel did not come up / the packet did not arrive (tunnel=%v delivered=%v) although the network delivered everything\n%s\n%s",
+					w.specs[xi].name, w.specs[yi].name, relayUDP, withRules, hx != nil, got, w.describe(), strings.Join(h.steps, "\n"))
+			}
+			delivered = true
+			if withRules {
+				labels = append(labels, "relayed-handshake-under-per-peer-rules-naming-the-relay")
+			} else {
+				labels = append(labels, "relayed-handshake-without-rules")
+			}
+		})
+		vk.Case("C15", fmt.Sprintf("attr|%v|%v", withRules, labels), delivered && withRules, labels...)
+	})
 }
